@@ -13,7 +13,7 @@
 
    Every event is judged against the *Reference* sentences of InterpSafe.tla
    (SafeNoExec, InferPlainExact, NamesSupersetDir).  A REJECT carries the names of the failing
-   clauses plus the named deviations (D1..D6) that the Design blames for this shape, so that
+   clauses plus the named deviations (D1..D7) that the Design blames for this shape, so that
    the harness can tell a known finding from a new one.                                     *)
 EXTENDS Naturals, Sequences, FiniteSets, TLC, Json, IOUtils
 
